@@ -291,7 +291,15 @@ impl Expr {
 
                 Ok(output)
             }
-            Expr::UnaryMinus(val) | Expr::UnaryNot(val) => val.for_type(flags),
+            Expr::UnaryMinus(val) => {
+                // `-2147483648`: the digits alone only fit a bigint, their negation is the int it is folded to
+                if let ConstexprEvaluation::Owned(folded) = self.try_constexpr_eval()? {
+                    return folded.for_type(flags);
+                }
+
+                val.for_type(flags)
+            }
+            Expr::UnaryNot(val) => val.for_type(flags),
             Expr::Callable(CallableContents::Standard { function, .. }) => {
                 let return_type = function.return_type();
 
@@ -532,6 +540,14 @@ fn compile_depth(
             Ok(eval)
         }
         Expr::UnaryMinus(expr) => {
+            // a negated literal is the literal of the negated number (`-2147483648` is an int, while
+            // 2147483648 alone is not): the same value, of the same type, that `for_type` reports
+            if let ConstexprEvaluation::Owned(operand) = expr.try_constexpr_eval()? {
+                if let Some(negated) = operand.try_negate()? {
+                    return negated.compile(state);
+                }
+            }
+
             if let Expr::Value(value) = expr.as_ref() {
                 match value {
                     Value::Ident(ident) => {
